@@ -1,9 +1,9 @@
 package world
 
 import (
-	"errors"
 	"bytes"
 	"context"
+	"errors"
 	"fmt"
 	"sync"
 	"sync/atomic"
@@ -38,8 +38,8 @@ type Bus struct {
 	// message was handed to the recipient - the sender learns late that its
 	// message is out (a slow link layer), while the recipient already acts on it
 	AckMax time.Duration
-	DropP    float64 // relaxed configurations only
-	DupP     float64
+	DropP  float64 // relaxed configurations only
+	DupP   float64
 	// Tap sees every envelope at publish time (after re-serialisation).
 	Tap func(from, to string, e *wire.Envelope, fate string)
 	// FailSend makes Publish fail for the envelopes it selects: the sender gets
